@@ -204,10 +204,10 @@ func c01RunProg(ctx *Ctx, c c01ProgCase) {
 // stage 2: every (function, arity) × boundary receiver × boundary arguments
 
 type c01FnCase struct {
-	Fn   string `json:"fn"`
-	Recv string `json:"recv"` // rendered receiver term
+	Fn   string   `json:"fn"`
+	Recv string   `json:"recv"` // rendered receiver term
 	Args []string `json:"args"`
-	Opts c01Opts `json:"opts"`
+	Opts c01Opts  `json:"opts"`
 }
 
 var c01Terms = func() []string {
